@@ -35,6 +35,9 @@ pub struct Case {
     pub comp: Comp,
     pub cli: bool,
     pub runs: Vec<Sched>,
+    /// metadata entries given to every run (part of "the same options")
+    #[serde(default)]
+    pub metadata: Vec<MetaArg>,
 }
 
 fn sched_strategy() -> impl Strategy<Value = Sched> {
@@ -64,6 +67,7 @@ fn run_case(c: &Case, rec: &mut CaseRec) -> Result<(), String> {
         return Ok(());
     }
     let source = Arc::new(expand(&c.source));
+    let md: BTreeMap<String, Vec<u8>> = metadata_map(&c.metadata);
     let mut archives: Vec<Vec<u8>> = vec![];
     let dir = if c.cli { Some(worker_dir("C12")) } else { None };
     for (i, s) in c.runs.iter().enumerate() {
@@ -76,7 +80,7 @@ fn run_case(c: &Case, rec: &mut CaseRec) -> Result<(), String> {
                 SplitMix(n as u64).fill(&mut v, n as usize);
                 v
             });
-            let r = compress_cli_over(dir, &format!("r{}", i), &source, &cfg, s.stdin, &[], hook.as_ref(), None, stale.as_deref());
+            let r = compress_cli_over(dir, &format!("r{}", i), &source, &cfg, s.stdin, &c.metadata, hook.as_ref(), None, stale.as_deref());
             match r {
                 Ok((a, _)) => a,
                 Err(e) => {
@@ -86,7 +90,7 @@ fn run_case(c: &Case, rec: &mut CaseRec) -> Result<(), String> {
             }
         } else {
             let rt = s.rt.build();
-            rt.block_on(l1::compress_lib(source.clone(), &cfg, s.reads.clone(), &BTreeMap::new()))?
+            rt.block_on(l1::compress_lib(source.clone(), &cfg, s.reads.clone(), &md))?
         };
         archives.push(a);
     }
@@ -109,6 +113,7 @@ fn run_case(c: &Case, rec: &mut CaseRec) -> Result<(), String> {
     rec.class_if(c.runs.iter().any(|r| r.stdin) && c.runs.iter().any(|r| !r.stdin) && c.cli, "file_and_pipe");
     rec.class_if(c.runs.iter().any(|r| !r.delays.is_empty()), "delay_script");
     rec.class_if(c.cli && c.runs.iter().any(|r| r.stale_tmp.is_some()), "stale_temp_file_in_some_run");
+    rec.class_if(md.len() >= 2, "two_or_more_metadata_entries");
     // skew: a chunk at least 64x larger than the median, followed by at least 4 chunks
     if nchunks >= 6 {
         let mut lens: Vec<usize> = model.iter().map(|m| m.len).collect();
@@ -130,8 +135,13 @@ fn case_strategy() -> impl Strategy<Value = Case> {
         hash_len_strategy(4),
         comp_strategy(),
         prop::collection::vec(sched_strategy(), 3..5),
+        prop_oneof![
+            2 => Just(vec![]),
+            1 => crate::props::c11::metadata_strategy(true),
+            2 => prop::collection::vec(("[a-z]{1,6}", "[a-zA-Z0-9_.]{0,12}").prop_map(|(k, v)| MetaArg::Value(k, v)), 2..9),
+        ],
     )
-        .prop_map(|(source, cli, small, clic, hash_len, comp, runs)| {
+        .prop_map(|(source, cli, small, clic, hash_len, comp, runs, metadata)| {
             let comp = if cli {
                 match comp {
                     Comp::Brotli(l) => Comp::Brotli(l.min(6)),
@@ -142,7 +152,7 @@ fn case_strategy() -> impl Strategy<Value = Case> {
             } else {
                 comp
             };
-            Case { source, chunker: if cli { clic } else { small }, hash_len, comp, cli, runs }
+            Case { source, chunker: if cli { clic } else { small }, hash_len, comp, cli, runs, metadata }
         })
 }
 
@@ -187,7 +197,7 @@ fn skew_strategy() -> impl Strategy<Value = Case> {
                 stale_tmp: None,
             };
             let runs = vec![mk(1, false, 1, 1, false), mk(8, true, 4, 8, true), mk(64, true, 2, 8, false), mk(3, true, 3, 3, false)];
-            Case { source, chunker, hash_len: 64, comp, cli, runs }
+            Case { source, chunker, hash_len: 64, comp, cli, runs, metadata: vec![] }
         })
 }
 
@@ -197,7 +207,7 @@ impl Prop for C12 {
     }
     fn meta(&self, _tier: Tier) -> Meta {
         Meta {
-            rule: "cases = (source spec, options, writer in {library, CLI}, 3-4 runs differing in buffered-chunks {1,2,3,8,64}, runtime shape, read fragmentation, file vs pipe delivery and injected syscall delay scripts). Oracle (metamorphic): all archives of one case are byte-identical. Variant 'skew' builds a slow chunk (64 KiB-400 KiB constant run cut at max) ahead of hundreds of few-byte chunks. Non-trivial = >=2 chunks, runs differ in at least one schedule parameter and at least one run has buffered-chunks >= 2; distinct by Blake2 of the canonical case.".into(),
+            rule: "cases = (source spec, options incl. 0-8 metadata entries, writer in {library, CLI}, 3-4 runs differing in buffered-chunks {1,2,3,8,64}, runtime shape, read fragmentation, file vs pipe delivery and injected syscall delay scripts). Oracle (metamorphic): all archives of one case are byte-identical. Variant 'skew' builds a slow chunk (64 KiB-400 KiB constant run cut at max) ahead of hundreds of few-byte chunks. Non-trivial = >=2 chunks, runs differ in at least one schedule parameter and at least one run has buffered-chunks >= 2; distinct by Blake2 of the canonical case.".into(),
             assumptions: vec!["schedules are perturbed, not enumerated; library and CLI archives are not compared with each other (version string may legitimately differ)".into()],
             ..Meta::default()
         }
